@@ -101,24 +101,18 @@ def run(ctx):
     fw = ctx.anchor("C01.R2", WIMPL + "write")
     if fw is not None:
         _min_bounded_extend(ctx, "C01.R2", fw, W + "remaining")
-    frem = ctx.anchor("C01.R2", W + "remaining")
-    if frem is not None:
-        ok = any(st[0] == "=" and st[2][0] == "bin" and st[2][1].startswith("Sub") and
-                 R.const_operand_is(st[2][2], keys={"noodles_bgzf::io::writer::MAX_BUF_SIZE"})
-                 for b in frem.blocks for st in b["s"])
-        if ok:
-            ctx.ok("C01.R2", "remaining() = MAX_BUF_SIZE - staging_buf.len()", "", frem.loc())
+    maxbuf = fb.const_val("noodles_bgzf::io::writer::MAX_BUF_SIZE")
+    for key, kinds, side, what in ((W + "remaining", ("Sub", "SubWithOverflow"), 2, "remaining() = MAX_BUF_SIZE - staging_buf.len()"),
+                                   (W + "has_remaining", ("Lt",), 3, "has_remaining() = len < MAX_BUF_SIZE")):
+        f = ctx.anchor("C01.R2", key)
+        if f is None:
+            continue
+        hits = [st for blk in f.blocks if not blk.get("cu") for st in blk["s"]
+                if st[0] == "=" and st[2][0] == "bin" and st[2][1] in kinds and C.eval_const(f, st[2][side]) is not None]
+        if hits and maxbuf is not None and all(C.eval_const(f, st[2][side]) == maxbuf for st in hits):
+            ctx.ok("C01.R2", what, "budget operand evaluates to %s" % maxbuf, f.loc())
         else:
-            ctx.violation("C01.R2", "C01.R2/remaining/" + frem.key, "remaining() is no longer MAX_BUF_SIZE - len", frem.loc())
-    fh = ctx.anchor("C01.R2", W + "has_remaining")
-    if fh is not None:
-        ok = any(st[0] == "=" and st[2][0] == "bin" and st[2][1] == "Lt" and
-                 R.const_operand_is(st[2][3], keys={"noodles_bgzf::io::writer::MAX_BUF_SIZE"})
-                 for b in fh.blocks for st in b["s"])
-        if ok:
-            ctx.ok("C01.R2", "has_remaining() = len < MAX_BUF_SIZE", "", fh.loc())
-        else:
-            ctx.violation("C01.R2", "C01.R2/has_remaining/" + fh.key, "has_remaining() is no longer len < MAX_BUF_SIZE", fh.loc())
+            ctx.violation("C01.R2", "C01.R2/budget/" + key, "%s: the budget operand is no longer exactly MAX_BUF_SIZE" % what, f.loc())
 
     # ---------------------------------------------------------------- R3 deflate::encode bound (A4)
     ctx.rule("C01.R3", "A4 deflate::encode: dst.truncate(n) only on the n <= MAX_COMPRESSED_SIZE edge")
